@@ -10,6 +10,15 @@ fractions, 1..4 knots, 2..4 images).  Oracle = the property text evaluated on th
 implementation: the coordinate formula with an independently computed rotation, equality of
 the coordinates for all four knot counts, weight maps summing to H*W, and identical-image
 stacks being a fixed point of align_translation for several upsampling factors / KDE widths.
+
+Round-3 extension (see harness/props/C15.audit.md): every accepted input form of
+validate_list_of_dataset2d, every pad_value mode of validate_pad_value, angle containers (list /
+float64 array / integers), very large pad fractions, angles outside [0,360) (correspondence only),
+every option of warp_image (kde_sigma, upsample_factor, output_shape) and bilinear_kde
+(lowpass_filter, max_batch_size, return_pix_count), CURVED knot arrays (the Lagrange model of
+interp1d on non-straight data), several align_translation passes with max/min_image_shift, the
+running reference of the measuring loop per step, translation equivariance of the coordinates and
+the weight sum after every pass, stacks of which only a prefix is identical.
 """
 from __future__ import annotations
 
@@ -29,8 +38,14 @@ KNOT_ATOL = 1e-4         # "the knots do not move" (pixels): the parabolic refin
                          # correlation surface returns O(1e-6) px on identical images (rounding, broad KDE
                          # peaks); 1e-4 px is 150x below the finest upsampled pixel (1/64) the property names
 C13_KEY = "fixed-point-via-C13-dft-upsample"
+LOWPASS_RTOL = 1e-5      # lowpass_filter=True: the float32 weight map goes through a complex64 FFT pair
+                         # (measured 1.3e-7 relative on 60 stacks up to 20x20: 80x margin)
+TRIG_ATOL = 1e-12        # |scan_fast - (sin, cos)(-theta)| against the C library (math.sin / math.cos)
+UNIT_ATOL = 1e-15        # |s^2 + c^2 - 1| (hypothesis of C15_placement_isometry)
+REF_RTOL = 1e-9          # running reference of the measuring loop vs the arithmetic mean (complex128)
 
 PRE = """From QV.lib Require Import Prelude.
+From QV.lib Require Import Chunks.
 From QV.model Require Import C15_Model.
 From Coq Require Import QArith Qround.
 Local Open Scope Q_scope.
@@ -55,11 +70,35 @@ Definition shf (l : list vec) (i : nat) : vec := nth i l (0, 0).
 Definition applied (n : nat) (mis : option Q) (l : list vec) :=
   map (fun i => scv (applied_shift n mis (shf l) i)) (seq 0 n).
 Definition cdim (n : nat) (pad : Q) : Z := canvas_dim n pad.
+(* round 3 *)
+(* arbitrary (curved) knots of a few scan lines, given as exact fractions of the floats *)
+Definition kfun (l : list (list vec)) : knots_t := fun r j => nth j (nth r l []) (0, 0).
+Definition curved (W K : nat) (s c : Q) (l : list (list vec)) (px : list (Z * Z)) :=
+  map (fun rc => scv (transform_coordinates W K s c (kfun l) (fst rc) (snd rc))) (pix px).
+(* warp_image(upsample_factor = up): the whole weight map on the upsampled canvas *)
+Definition wmap_up (urows ucols : Z) (up : Q) (rows cols : Z) (H W K : nat) (s c : Q) :=
+  let kn := fun r j => redv (init_knot rows cols H W K s c r j) in
+  let pts := map (fun p => redv (vscale up p)) (pixel_coordinates H W K s c kn) in
+  let cs := map (fun iw => (fst iw, Qred (snd iw))) (contributions urows ucols pts) in
+  map (fun t => sc (cell_weight cs (Z.of_nat t))) (seq 0 (Z.to_nat (urows * ucols))).
+(* bilinear_kde(max_batch_size = b): cells accumulated batch by batch over chunks of b points *)
+Definition wmap_batched (b : nat) (rows cols : Z) (H W K : nat) (s c : Q) :=
+  let kn := fun r j => redv (init_knot rows cols H W K s c r j) in
+  let pts := map redv (pixel_coordinates H W K s c kn) in
+  map (fun t => sc (cell_weight_batched rows cols (chunks b pts) (Z.of_nat t)))
+      (seq 0 (Z.to_nat (rows * cols))).
+(* running reference of the measuring loop (one Fourier coefficient) *)
+Definition refmean (x0 : Q) (xs : list Q) : Z := sc (ref_after x0 xs).
 """
 
 DYADIC_PADS = [0.0, 0.0625, 0.125, 0.25, 0.375, 0.5, 0.75, 1.0]
 SPECIAL_ANGLES = [0.0, 90.0, 180.0, 270.0, 45.0, 30.0, 135.0, 315.0, 359.5, 89.999]
-PAD_VALUES = ["median", "mean", "min", "max", 0.3]
+PAD_VALUES = ["median", "mean", "min", "max", 0.3, "list", 0.0, 1.0]
+FORMS = ["list-nd", "array3d", "list-ds2d", "ds3d"]            # every input validate_list_of_dataset2d accepts
+ANGLE_TYPES = ["list", "list", "ndarray", "int-list", "int-array"]
+INT_ANGLES = [0, 90, 180, 270, 45, 30, 17, 123, 359, 222]
+BIG_PADS = [1.5, 2.0, 3.5, 5.0]
+OUTSIDE_ANGLES = [360.0, 450.0, -30.0, -90.0, 725.25, -1234.5, 1080.0, 359.99999 + 360.0]
 
 
 # ------------------------------------------------------------------------------------------
@@ -107,20 +146,46 @@ def gen_cases(ctx: Ctx):
         same_dir = (i % 3 == 0)
         a0 = r.choice(SPECIAL_ANGLES) if r.random() < 0.3 else r.uniform(0.0, 360.0)
         if i % 6 == 5:
-            # very close to, but not on, an image axis (1e-6 .. 3e-2 degrees off): "every scan angle"
+            # very close to, but not on, an image axis (1e-9 .. 3e-2 degrees off): "every scan angle"
             # includes these, and an exact-0/1 shortcut for "axis-aligned" scans must not swallow them
-            a0 = (r.choice([0.0, 90.0, 180.0, 270.0, 360.0]) + r.choice([-1, 1]) * 10 ** r.uniform(-6.0, -1.5)) % 360.0
+            a0 = (r.choice([0.0, 90.0, 180.0, 270.0, 360.0]) + r.choice([-1, 1]) * 10 ** r.uniform(-9.0, -1.5)) % 360.0
         angles = [a0] * n if same_dir else [a0] + [
             (r.choice(SPECIAL_ANGLES) if r.random() < 0.25 else r.uniform(0.0, 360.0)) for _ in range(n - 1)]
         pad = r.choice(DYADIC_PADS) if r.random() < 0.6 else r.uniform(0.0, 0.8)
+        if i % 11 == 10:
+            pad = r.choice(BIG_PADS)            # canvas several times the image
         if min(H, W) == 1 and pad < 0.01:
             pad = 0.25      # a 1-pixel extent with no padding has an EMPTY canvas (2*round(1/2) = 0): no geometry
+        # ---- round 3: how the stack and the angles are handed over, what else the entry points accept
+        angle_type = r.choice(ANGLE_TYPES)
+        outside = (i % 12 == 7)
+        if outside:
+            # outside the quantified domain [0, 360): accepted by the code (no normalisation); only the
+            # model correspondence is run on these, the oracle does not judge them
+            angles = [r.choice(OUTSIDE_ANGLES)] + [r.choice(OUTSIDE_ANGLES + [12.5]) for _ in range(n - 1)]
+            angle_type = "list"
+        elif angle_type.startswith("int"):
+            angles = ([r.choice(INT_ANGLES)] * n) if same_dir else [r.choice(INT_ANGLES) for _ in range(n)]
+        prefix = 0
+        if i % 8 == 3 and n >= 3 and not outside and min(H, W) >= 4:
+            # only the first `prefix` images are identical (same direction): they must stay aligned with
+            # each other; the remaining images are unrelated
+            prefix = r.randint(2, n - 1)
+            angles = [angles[0]] * prefix + list(angles[prefix:])
+        pv = r.choice(PAD_VALUES)
+        if pv == "list":
+            pv = [round(r.uniform(0.0, 2.0), 3) for _ in range(n)]
+            if prefix:      # identical images are resampled identically only with the same pad value
+                pv = [pv[0]] * prefix + pv[prefix:]
         cases.append({
-            "H": H, "W": W, "n": n, "K": K, "angles": angles, "pad": float(pad),
-            "pad_value": r.choice(PAD_VALUES), "sigma": r.choice([0.25, 0.5, 1.0, 1.5]),
+            "H": H, "W": W, "n": n, "K": K, "angles": [float(a) for a in angles], "pad": float(pad),
+            "pad_value": pv, "sigma": r.choice([0.25, 0.5, 1.0, 1.5]),
             "identical": False, "img_seed": r.randrange(1 << 30),
             "up": r.choice([1, 1, 2, 4, 8]),
             "min_image_shift": r.choice([None, None, None, 0.05, 0.75, 3.0]),
+            "form": FORMS[(i // 4 + i) % 4], "angle_type": angle_type, "outside": outside,
+            "prefix": prefix, "passes": r.choice([1, 1, 2]),
+            "max_image_shift": r.choice([32, 32, 6.0, 1.5, None]),
         })
     return cases
 
@@ -134,11 +199,22 @@ def gen_fixed_cases(ctx: Ctx):
         H, W = shapes[i % len(shapes)] if i < 2 * len(shapes) else (r.randint(4, 14), r.randint(4, 14))
         a0 = r.choice(SPECIAL_ANGLES) if r.random() < 0.3 else r.uniform(0.0, 360.0)
         n = 2 + (i % 3)
+        pv = r.choice(PAD_VALUES)
+        if pv == "list":
+            pv = [round(r.uniform(0.0, 2.0), 3)] * n      # identical images: one pad value, passed as a list
+        prefix = 0
+        angles = [a0] * n
+        if i % 5 == 4 and n >= 3:
+            prefix = r.randint(2, n - 1)        # only a prefix of the stack is identical
+            angles = [a0] * prefix + [r.uniform(0.0, 360.0) for _ in range(n - prefix)]
         cases.append({
-            "H": H, "W": W, "n": n, "K": 1 + (i % 4), "angles": [a0] * n,
+            "H": H, "W": W, "n": n, "K": 1 + (i % 4), "angles": angles,
             "pad": float(r.choice(DYADIC_PADS[1:6]) if r.random() < 0.6 else r.uniform(0.05, 0.6)),
-            "pad_value": r.choice(PAD_VALUES), "sigma": 0.5,
-            "identical": True, "img_seed": r.randrange(1 << 30),
+            "pad_value": pv, "sigma": 0.5,
+            "identical": prefix == 0, "prefix": prefix, "img_seed": r.randrange(1 << 30),
+            "form": FORMS[i % 4], "angle_type": "list", "outside": False,
+            "passes": 1 + (i % 3), "max_image_shift": [32, 6.0, None, 1.5, 32][i % 5],
+            "min_image_shift": [None, 0.05, None, 3.0][i % 4],
         })
     return cases
 
@@ -161,15 +237,46 @@ def make_stack(case):
     if case["identical"]:
         im = one()
         return [im.copy() for _ in range(n)]
+    m = int(case.get("prefix") or 0)
+    if m:
+        im = one()
+        return [im.copy() for _ in range(m)] + [one() for _ in range(n - m)]
     return [one() for _ in range(n)]
+
+
+def stack_input(imgs, form):
+    """the stack in one of the forms validate_list_of_dataset2d accepts"""
+    from quantem.core.datastructures import Dataset2d, Dataset3d
+
+    if form == "array3d":
+        return np.array([im.copy() for im in imgs])
+    if form == "list-ds2d":
+        return [Dataset2d.from_array(im.copy()) for im in imgs]
+    if form == "ds3d":
+        return Dataset3d.from_array(np.array([im.copy() for im in imgs]))
+    return [im.copy() for im in imgs]
+
+
+def angle_input(case):
+    t = case.get("angle_type", "list")
+    a = list(case["angles"])
+    if t == "ndarray":
+        return np.array(a, dtype=np.float64)
+    if t == "int-list":
+        return [int(x) for x in a]
+    if t == "int-array":
+        return np.array([int(x) for x in a], dtype=np.int64)
+    return a
 
 
 def build(case, K=None, sigma=None):
     from quantem.imaging.drift import DriftCorrection
 
     imgs = make_stack(case)
-    dc = DriftCorrection.from_data([im.copy() for im in imgs], scan_direction_degrees=list(case["angles"]))
-    dc.preprocess(pad_fraction=case["pad"], pad_value=case["pad_value"],
+    pv = case["pad_value"]
+    dc = DriftCorrection.from_data(stack_input(imgs, case.get("form", "list-nd")),
+                                   scan_direction_degrees=angle_input(case))
+    dc.preprocess(pad_fraction=case["pad"], pad_value=list(pv) if isinstance(pv, list) else pv,
                   kde_sigma=case["sigma"] if sigma is None else sigma,
                   number_knots=case["K"] if K is None else K)
     return dc, imgs
@@ -189,6 +296,11 @@ def observe(case, K=None):
             "xa": np.array(xa), "ya": np.array(ya),
             "fast": [float(v) for v in dc.scan_fast[i]],
             "slow": [float(v) for v in dc.scan_slow[i]],
+            # every copy of the scan direction the resampling reads (round 3)
+            "it_fast": [float(v) for v in it.scan_fast],
+            "it_slow": [float(v) for v in it.scan_slow],
+            "it_in_shape": [int(v) for v in it.input_shape],
+            "it_out_shape": [int(v) for v in it.output_shape],
             "weights": np.array(dc.weights_warped.array[i]),
         })
     return dc, imgs, obs
@@ -260,27 +372,159 @@ def oracle_knots_agree(case, obs_by_K):
     return bad
 
 
+def scan_vector_findings(case, obs):
+    """the trigonometric ORACLE CONTRACT, on every copy of the scan direction the resampling reads.
+    The theorems are stated for an arbitrary pair (s, c); what ties them to `scan_direction_degrees`
+    is exactly this: scan_fast = (sin, cos)(-theta) to 1e-12 against the C library, unit length,
+    scan_slow = (c, -s) bit-exactly, the interpolator's copies bit-equal, nothing normalised or
+    snapped on the way (stored degrees / radians).  returns [(key, what, is_oracle)]"""
+    out = []
+    for i, im in enumerate(obs["images"]):
+        a = case["angles"][i]
+        fast, slow = im["fast"], im["slow"]
+        if not (slow[0] == fast[1] and slow[1] == -fast[0]):
+            out.append(("scan-vectors-correspondence",
+                        "scan_slow is not (cos, -sin) of the same angle as scan_fast = (sin, cos): fast=%s slow=%s"
+                        % (fast, slow), False))
+        if not (im["it_fast"] == fast and im["it_slow"] == slow):
+            out.append(("interpolator-scan-vectors-correspondence",
+                        "the interpolator of image %d resamples with scan vectors %s / %s, preprocess placed the "
+                        "knots with %s / %s" % (i, im["it_fast"], im["it_slow"], fast, slow), False))
+        if not (im["it_in_shape"] == [case["H"], case["W"]] and im["it_out_shape"] == obs["shape"][1:]):
+            out.append(("interpolator-shapes-correspondence",
+                        "interpolator of image %d has input/output shape %s/%s for a %dx%d image on canvas %s"
+                        % (i, im["it_in_shape"], im["it_out_shape"], case["H"], case["W"], obs["shape"][1:]), False))
+        if case.get("outside"):
+            continue        # angle outside [0, 360): not judged
+        t = -math.radians(a)
+        if max(abs(fast[0] - math.sin(t)), abs(fast[1] - math.cos(t))) > TRIG_ATOL:
+            out.append(("scan-direction",
+                        "scan_fast of image %d is %s, not (sin, cos) of minus the scan direction %r deg"
+                        % (i, fast, a), True))
+        if abs(fast[0] * fast[0] + fast[1] * fast[1] - 1.0) > UNIT_ATOL:
+            out.append(("scan-direction-unit",
+                        "scan_fast of image %d (%r deg) is not a unit vector: %s" % (i, a, fast), True))
+    return out
+
+
+def up_shape(shape2, up):
+    return [int(v) for v in np.round(np.array(shape2) * up).astype("int")]
+
+
+def warp_option_findings(case, dc, imgs, i):
+    """every option warp_image / bilinear_kde accept: the weight map sums to H*W after the KDE for every
+    kde_sigma (0 = the bare splat), upsample_factor (integer or not), output_shape, with and without the
+    sinc lowpass, for every max_batch_size; batching does not change the map.  returns (findings, extras)
+    where extras carries the arrays the model is compared with"""
+    from quantem.core.utils.imaging_utils import bilinear_kde
+
+    H, W = case["H"], case["W"]
+    g = np.random.default_rng(case["img_seed"] ^ 0x5A5A)
+    it = dc.interpolator[i]
+    bad, extras = [], {}
+    tag = "image %d of a %dx%d stack, %r deg, pad_fraction %r, %d knot(s)" % (i, H, W, case["angles"][i],
+                                                                                 case["pad"], dc.knots[i].shape[-1])
+    combos = [(2, 0.0), (int(g.choice([1, 3, 4])), float(g.choice([0.25, 0.5, 1.0, 2.0]))),
+              (float(g.choice([1.5, 2.5, 0.5])), float(g.choice([0.0, 0.5, 1.0]))), (None, None)]
+    for up, ks in combos:
+        _, w = it.warp_image(imgs[i], dc.knots[i], kde_sigma=ks, upsample_factor=up)
+        w = np.asarray(w)
+        want = up_shape(dc.shape[1:], 1.0 if up is None else up)
+        if list(w.shape) != want:
+            bad.append(("warp-upsampled-shape", "warp_image(upsample_factor=%r) of %s returns a %s weight map, "
+                        "canvas %s" % (up, tag, list(w.shape), dc.shape[1:])))
+            continue
+        ws = float(w.sum(dtype=float))
+        if not abs(ws - H * W) <= WSUM_RTOL * H * W:
+            bad.append(("weight-sum-warp-options",
+                        "warp_image(kde_sigma=%r, upsample_factor=%r) of %s: the weight map sums to %.9g, not to the "
+                        "%d image pixels" % (ks, up, tag, ws, H * W)))
+        if (up, ks) == (2, 0.0):
+            extras["w_up2"] = np.array(w, dtype=float)
+    oshape = (dc.shape[1] + int(g.integers(1, 4)), dc.shape[2] + int(g.integers(0, 3)))
+    _, w = it.warp_image(imgs[i], dc.knots[i], output_shape=oshape, pad_value=0.25)
+    ws = float(np.asarray(w).sum(dtype=float))
+    if list(np.asarray(w).shape) != list(oshape) or not abs(ws - H * W) <= WSUM_RTOL * H * W:
+        bad.append(("weight-sum-warp-options", "warp_image(output_shape=%s) of %s: weight map of shape %s sums to %.9g, "
+                    "not %d" % (oshape, tag, list(np.asarray(w).shape), ws, H * W)))
+    # ---- bilinear_kde itself
+    xa, ya = it.transform_coordinates(dc.knots[i])
+    xa = np.array(np.broadcast_to(np.asarray(xa, dtype=float), (H, W)))
+    ya = np.array(np.broadcast_to(np.asarray(ya, dtype=float), (H, W)))
+    sig = float(g.choice([0.0, 0.5, 1.0]))
+    img_ref, w_ref = bilinear_kde(xa, ya, imgs[i], tuple(dc.shape[1:]), sig, pad_value=0.5, return_pix_count=True)
+    only = bilinear_kde(xa, ya, imgs[i], tuple(dc.shape[1:]), sig, pad_value=0.5)
+    if isinstance(only, tuple) or not np.array_equal(np.asarray(only), np.asarray(img_ref), equal_nan=True):
+        bad.append(("kde-return-pix-count", "bilinear_kde without return_pix_count returns a different image (%s)" % tag))
+    nb = sorted({1, int(g.integers(2, max(3, H * W))), H * W, H * W + 7})
+    extras["batch"] = nb[1] if len(nb) > 1 else 1
+    for mb in nb:
+        _, wb = bilinear_kde(xa, ya, imgs[i], tuple(dc.shape[1:]), sig, pad_value=0.5, max_batch_size=mb,
+                             return_pix_count=True)
+        d = float(np.abs(np.asarray(wb, dtype=float) - np.asarray(w_ref, dtype=float)).max())
+        ws = float(np.asarray(wb).sum(dtype=float))
+        if not d <= W_ATOL or not abs(ws - H * W) <= WSUM_RTOL * H * W:
+            bad.append(("weight-map-batched",
+                        "bilinear_kde(max_batch_size=%d, kde_sigma=%r) of %s: weight map differs from the unbatched one "
+                        "by %.3g and sums to %.9g (image pixels: %d)" % (mb, sig, tag, d, ws, H * W)))
+    _, wb0 = bilinear_kde(xa, ya, imgs[i], tuple(dc.shape[1:]), 0.0, pad_value=0.5, max_batch_size=extras["batch"],
+                          return_pix_count=True)
+    extras["w_batched"] = np.array(wb0, dtype=float)      # the bare batched splat, for the model
+    for mb in (None, extras["batch"]):
+        _, wl = bilinear_kde(xa, ya, imgs[i], tuple(dc.shape[1:]), max(sig, 0.25), pad_value=0.5, lowpass_filter=True,
+                             max_batch_size=mb, return_pix_count=True)
+        ws = float(np.asarray(wl).sum(dtype=float))
+        if not abs(ws - H * W) <= LOWPASS_RTOL * H * W:
+            bad.append(("weight-sum-lowpass",
+                        "bilinear_kde(lowpass_filter=True, max_batch_size=%r) of %s: the weight map sums to %.9g, not %d"
+                        % (mb, tag, ws, H * W)))
+    return bad, extras
+
+
+def curved_knots(case, knots, seed):
+    """a NON-straight knot array: the given knots plus a dyadic perturbation of every knot (K = 1: of every
+    scan line), so that 3 / 4 knots exercise the interpolating polynomial on curved data"""
+    g = np.random.default_rng(seed)
+    d = g.integers(-16, 17, size=knots.shape) / 8.0
+    return np.array(knots, dtype=float) + d
+
+
 # ------------------------------------------------------------------------------------------
 # align_translation
 
 
-def run_align(dc, up, min_image_shift=None):
+_DEFAULT = object()
+LAST_CALLS = []          # (reference handed to the estimator, its returned shifted image) of the last run_align
+
+
+def run_align(dc, up, min_image_shift=None, max_image_shift=_DEFAULT):
     """knots before / after, and the shifts the estimator returned (recorded by wrapping the
-    name align_translation calls; None when the wrapper saw no call)"""
+    name align_translation calls; None when the wrapper saw no call).  The wrapper also keeps the
+    reference image it was handed and the shifted image it returned (LAST_CALLS), which is how the
+    running reference of the measuring loop is observed step by step."""
     import quantem.imaging.drift as D
 
     before = [np.array(k, dtype=float) for k in dc.knots]
     rec = []
+    del LAST_CALLS[:]
     orig = D.cross_correlation_shift
 
     def wrapped(*a, **k):
         out = orig(*a, **k)
         rec.append(np.array(out[0] if isinstance(out, tuple) else out, dtype=float))
+        try:
+            ref = a[0] if a else k.get("im_ref")
+            LAST_CALLS.append((np.array(ref), np.array(out[1]) if isinstance(out, tuple) and len(out) > 1 else None,
+                               bool(k.get("fft_input")) and bool(k.get("fft_output"))))
+        except Exception:
+            pass
         return out
 
     D.cross_correlation_shift = wrapped
     try:
         kw = {} if min_image_shift is None else {"min_image_shift": min_image_shift}
+        if max_image_shift is not _DEFAULT:
+            kw["max_image_shift"] = max_image_shift
         dc.align_translation(upsample_factor=up, show_merged=False, **kw)
     finally:
         D.cross_correlation_shift = orig
@@ -288,6 +532,28 @@ def run_align(dc, up, min_image_shift=None):
     n = len(before)
     shifts = [r.tolist() for r in rec] if len(rec) == n - 1 else None
     return before, after, shifts
+
+
+def reference_findings(n):
+    """the reference handed to the estimator for image k is the arithmetic mean of image 0 and the shifted
+    images 1..k-1 (C15_ref_running_mean), compared at every step; returns (what or None, data for the model)"""
+    calls = list(LAST_CALLS)
+    if len(calls) != n - 1 or any(c[1] is None or not c[2] or c[0].shape != c[1].shape for c in calls):
+        return None, None          # the loop is not observable in this form: nothing to compare
+    merged = [calls[0][0]]
+    scale = max(1.0, float(np.abs(calls[0][0]).max()))
+    for k in range(1, n - 1):
+        merged.append(calls[k - 1][1])
+        mean = np.mean(np.array(merged), axis=0)
+        d = float(np.abs(calls[k][0] - mean).max())
+        if not d <= REF_RTOL * scale:
+            return ("the reference used to measure image %d differs from the mean of image 0 and the %d shifted "
+                    "images merged before it by %.3g (scale %.3g)" % (k + 1, k, d, scale)), None
+    if n >= 3:
+        # DC coefficient (real part) of every merged image and of the last reference, for the Coq model
+        xs = [float(np.real(m.flat[0])) for m in merged]
+        return None, (xs, float(np.real(calls[n - 2][0].flat[0])))
+    return None, None
 
 
 def probe_estimator(warped0, up):
@@ -300,37 +566,65 @@ def probe_estimator(warped0, up):
 
 
 def check_fixed_point(ctx: Ctx, case, up, sigma):
-    """identical images + same scan direction: zero relative shifts, knots do not move.
-    returns (key, what) or None"""
+    """identical images + same scan direction: zero relative shifts, knots do not move — over every pass,
+    with the case's max_image_shift / min_image_shift; when only a prefix of the stack is identical, that
+    prefix stays aligned with itself.  returns (key, what) or None"""
     dc, imgs = build(case, sigma=sigma)
+    n = case["n"]
+    m = int(case.get("prefix") or 0) or n
     warped = np.array(dc.images_warped.array)
-    for i in range(1, case["n"]):
+    for i in range(1, m):
         if not np.array_equal(warped[0], warped[i], equal_nan=True):
             return ("identical-images-warp-differently",
                     "identical images with the same scan direction are resampled differently (image 0 vs %d, max "
                     "difference %.3g)" % (i, float(np.abs(warped[0] - warped[i]).max())))
-    before, after, shifts = run_align(dc, up)
-    moved = max(float(np.abs(a - b).max()) if np.all(np.isfinite(a)) else float("inf")
-                for a, b in zip(before, after))
+    start = [np.array(k, dtype=float) for k in dc.knots]
+    mis = case.get("min_image_shift")
+    desc0 = ("stack of %d %s %dx%d images, scan direction %r deg, pad_fraction %r, %d knot(s), kde_sigma %r, "
+             "upsample_factor %d, max_image_shift %r, min_image_shift %r"
+             % (n, "identical" if m == n else "(first %d identical)" % m, case["H"], case["W"], case["angles"][0],
+                case["pad"], case["K"], sigma, up, case.get("max_image_shift", 32), mis))
     wsum_bad = None
-    for i in range(case["n"]):
-        ws = float(np.array(dc.weights_warped.array[i]).sum(dtype=float))
-        if not abs(ws - case["H"] * case["W"]) <= WSUM_RTOL * case["H"] * case["W"]:
-            wsum_bad = ("weight-sum", "after align_translation the weight map of image %d sums to %.9g, not %d"
-                        % (i, ws, case["H"] * case["W"]))
-    if moved <= KNOT_ATOL:
-        return wsum_bad
-    desc = ("stack of %d identical %dx%d images, scan direction %r deg, pad_fraction %r, %d knot(s), kde_sigma %r, "
-            "upsample_factor %d: knots move by %.4g px (measured shifts %s)"
-            % (case["n"], case["H"], case["W"], case["angles"][0], case["pad"], case["K"], sigma, up, moved, shifts))
-    if up > 1:
-        p_up = probe_estimator(warped[0], up)
-        p_1 = probe_estimator(warped[0], 1)
-        if max(abs(v) for v in p_up) > KNOT_ATOL and max(abs(v) for v in p_1) <= KNOT_ATOL:
-            return (C13_KEY,
-                    desc + "; cross_correlation_shift on two identical images returns %s with upsample_factor=%d "
-                           "(and %s with upsample_factor=1): the NumPy dft_upsample defect of property C13" % (p_up, up, p_1))
-    return ("fixed-point-knots-moved", desc)
+    for pno in range(int(case.get("passes", 1))):
+        before, after, shifts = run_align(dc, up, mis, case.get("max_image_shift", 32))
+        calls = list(LAST_CALLS)
+        if m == n:
+            moved = max(float(np.abs(a - b).max()) if np.all(np.isfinite(a)) else float("inf")
+                        for a, b in zip(start, after))
+        else:
+            # the identical prefix moves rigidly: same displacement for every knot of each of its images
+            d0 = after[0] - before[0]
+            d0 = np.array([d0[0].flat[0], d0[1].flat[0]]).reshape(2, 1, 1)
+            moved = max((float(np.abs((after[i] - before[i]) - d0).max())
+                         if np.all(np.isfinite(after[i])) else float("inf")) for i in range(m))
+            if shifts is not None:
+                moved = max(moved, max(max(abs(v) for v in shifts[k - 1]) for k in range(1, m)))
+        for i in range(n):
+            ws = float(np.array(dc.weights_warped.array[i]).sum(dtype=float))
+            if not abs(ws - case["H"] * case["W"]) <= WSUM_RTOL * case["H"] * case["W"]:
+                wsum_bad = ("weight-sum", "after align_translation the weight map of image %d sums to %.9g, not %d"
+                            % (i, ws, case["H"] * case["W"]))
+        # the reference stays the resampled image while identical images are merged (C15_ref_identical_fixed)
+        if moved <= KNOT_ATOL and len(calls) == n - 1 and all(c[2] and c[1] is not None for c in calls):
+            scale = max(1.0, float(np.abs(calls[0][0]).max()))
+            for k in range(1, m - 1):
+                dref = float(np.abs(calls[k][0] - calls[0][0]).max())
+                if not dref <= 1e-3 * scale:
+                    return ("fixed-point-reference-drifts",
+                            desc0 + ", pass %d: the reference used for image %d differs from the resampled image by "
+                                    "%.3g (scale %.3g) although the images merged so far are identical" % (pno + 1, k + 1, dref, scale))
+        if moved <= KNOT_ATOL:
+            continue
+        desc = desc0 + ", pass %d: knots move by %.4g px (measured shifts %s)" % (pno + 1, moved, shifts)
+        if up > 1:
+            p_up = probe_estimator(warped[0], up)
+            p_1 = probe_estimator(warped[0], 1)
+            if max(abs(v) for v in p_up) > KNOT_ATOL and max(abs(v) for v in p_1) <= KNOT_ATOL:
+                return (C13_KEY,
+                        desc + "; cross_correlation_shift on two identical images returns %s with upsample_factor=%d "
+                               "(and %s with upsample_factor=1): the NumPy dft_upsample defect of property C13" % (p_up, up, p_1))
+        return ("fixed-point-knots-moved" if m == n else "fixed-point-identical-prefix", desc)
+    return wsum_bad
 
 
 # ------------------------------------------------------------------------------------------
@@ -360,6 +654,41 @@ def applied_expr(n, mis, shifts):
     return "applied %s %s %s" % (cnat(n), "None" if mis is None else "(Some %s)" % cq(fr(mis)), l)
 
 
+def wmap_up_expr(shape, up, H, W, K, fast):
+    us = up_shape(shape[1:], up)
+    return "wmap_up %s %s %s %s %s %s %s %s %s %s" % (cz(us[0]), cz(us[1]), cq(Fraction(up)), cz(shape[1]), cz(shape[2]),
+                                                       cnat(H), cnat(W), cnat(K), cq(fr(fast[0])), cq(fr(fast[1])))
+
+
+def wmap_batched_expr(b, shape, H, W, K, fast):
+    return "wmap_batched %s %s %s %s %s %s %s %s" % (cnat(b), cz(shape[1]), cz(shape[2]), cnat(H), cnat(W), cnat(K),
+                                                     cq(fr(fast[0])), cq(fr(fast[1])))
+
+
+def curved_expr(W, K, fast, knots, rows_sel, cpx):
+    rows = []
+    for r_ in rows_sel:
+        rows.append("[" + "; ".join("(%s, %s)" % (cq(fr(knots[0][r_][j])), cq(fr(knots[1][r_][j]))) for j in range(K)) + "]")
+    return "curved %s %s %s %s [%s] %s" % (cnat(W), cnat(K), cq(fr(fast[0])), cq(fr(fast[1])), "; ".join(rows), czz(cpx))
+
+
+def prefix_findings(case, m, shifts, disp, mis, pno):
+    """images 0..m-1 are identical and share the scan direction: the measuring loop sees exactly the identical
+    sub-stack for them, so their relative shifts are zero and they are displaced together"""
+    n = case["n"]
+    rel = max(max(abs(v) for v in shifts[k - 1]) for k in range(1, m))
+    together = max(max(abs(float(disp[i][a].flat[0]) - float(disp[0][a].flat[0])) for a in (0, 1)) for i in range(m))
+    if mis is not None and m == n:
+        together = 0.0          # the threshold acts on the last image only
+    if rel <= KNOT_ATOL and together <= KNOT_ATOL:
+        return None
+    return ("fixed-point-identical-prefix",
+            "stack of %d %dx%d images of which the first %d are identical (scan direction %r deg, %d knot(s), "
+            "upsample_factor %s, pass %d): relative shifts measured among the identical images %.4g px, their knots "
+            "move apart by %.4g px" % (n, case["H"], case["W"], m, case["angles"][0], case["K"], case.get("up"), pno + 1,
+                                       rel, together))
+
+
 def unscale(z):
     return z / SCALE
 
@@ -385,7 +714,7 @@ def check_geometry(ctx: Ctx):
     cases = gen_cases(ctx)
     exprs, todo = [], []
     n_or = 0
-    for case in cases:
+    for ci, case in enumerate(cases):
         H, W, K, n = case["H"], case["W"], case["K"], case["n"]
         obs_by_K = {}
         dcs = {}
@@ -403,28 +732,36 @@ def check_geometry(ctx: Ctx):
         ctx.dist("geom/pad=%s" % ("dyadic" if pad_is_exact(case["pad"]) else "arbitrary"))
         ctx.count(("geom", H, W, K, n, tuple(case["angles"]), case["pad"]),
                   nontrivial=(H * W > 1 and any(a % 360.0 != 0.0 for a in case["angles"])) or H != W)
+        ctx.dist("geom/input_form=%s" % case.get("form", "list-nd"))
+        ctx.dist("geom/angle_container=%s" % case.get("angle_type", "list"))
+        ctx.dist("geom/pad_value=%s" % ("list" if isinstance(case["pad_value"], list) else case["pad_value"]))
+        ctx.dist("geom/angle_domain=%s" % ("outside[0,360)-correspondence-only" if case.get("outside") else "[0,360)"))
+        if case["pad"] > 1.0:
+            ctx.dist("geom/pad=large(>1)")
+        if min(H, W) <= 2:
+            ctx.dist("geom/extent-1-or-2")
+        if min(float(im_["xa"].min()) for im_ in obs["images"]) < 0 or min(float(im_["ya"].min()) for im_ in obs["images"]) < 0 \
+                or max(float(im_["xa"].max()) for im_ in obs["images"]) > shape[1] - 1 \
+                or max(float(im_["ya"].max()) for im_ in obs["images"]) > shape[2] - 1:
+            ctx.dist("geom/splat-wraps-around-canvas-edge")
         # ---- oracle: the property on the implementation, for all four knot counts
         bad = []
-        for k in (1, 2, 3, 4):
-            bad += oracle_geometry(case, obs_by_K[k], k)
-        bad += oracle_knots_agree(case, obs_by_K)
+        if not case.get("outside"):
+            for k in (1, 2, 3, 4):
+                bad += oracle_geometry(case, obs_by_K[k], k)
+            bad += oracle_knots_agree(case, obs_by_K)
         for key, what in bad:
             n_or += 1
             ctx.violation(key, what, {"kind": "geom", "case": case})
         oracle_failed_K = any(key.startswith("coords-exact-K%d" % K) for key, _ in bad)
-        # ---- correspondence: model at the case's knot count
-        # scan vectors: the model takes slow = (c, -s) from fast = (s, c)
-        for i in range(n):
-            im = obs["images"][i]
-            if not (im["slow"][0] == im["fast"][1] and im["slow"][1] == -im["fast"][0]):
-                ctx.violation("scan-vectors-correspondence",
-                              "scan_slow is not (cos, -sin) of the same angle as scan_fast = (sin, cos): fast=%s slow=%s"
-                              % (im["fast"], im["slow"]), {"kind": "geom", "case": case}, found_input=bool(bad))
-            t = -math.radians(case["angles"][i])
-            if max(abs(im["fast"][0] - math.sin(t)), abs(im["fast"][1] - math.cos(t))) > 1e-12:
-                ctx.violation("scan-direction",
-                              "scan_fast of image %d is %s, not (sin, cos) of minus the scan direction %r deg"
-                              % (i, im["fast"], case["angles"][i]), {"kind": "geom", "case": case})
+        # ---- the trigonometric oracle contract and every copy of the scan vectors, for all four knot counts
+        for k in (1, 2, 3, 4):
+            for key, what, is_oracle in scan_vector_findings(case, obs_by_K[k]):
+                if is_oracle:
+                    n_or += 1
+                    ctx.violation(key, what, {"kind": "geom", "case": case})
+                else:
+                    ctx.violation(key, what, {"kind": "geom", "case": case}, found_input=bool(bad))
         # image index to run through the model (all images share the shape; the angle differs)
         i_m = ctx.rng.randrange(n)
         full = H * W <= 30 and shape[1] * shape[2] <= 120
@@ -438,23 +775,91 @@ def check_geometry(ctx: Ctx):
         if pad_is_exact(case["pad"]):
             exprs.append("(cdim %s %s, cdim %s %s)" % (cnat(H), cq(fr(case["pad"])), cnat(W), cq(fr(case["pad"]))))
             todo.append(("cdim", case, obs, 0, None, False))
-        # ---- align_translation on this (generally non-identical) stack: knot update arithmetic
         dc, imgs = dcs[K]
-        before, after, shifts = run_align(dc, case["up"], case["min_image_shift"])
-        disp = [a - b for a, b in zip(after, before)]
-        if all(np.all(np.isfinite(d)) for d in disp):
+        # ---- every option of warp_image / bilinear_kde (oracle: weight sums; model: upsampled and batched maps)
+        if not case.get("outside"):
+            wbad, extras = warp_option_findings(case, dc, imgs, i_m)
+            for key, what in wbad:
+                n_or += 1
+                ctx.violation(key, what, {"kind": "geom", "case": case, "image": i_m})
+            ctx.dist("warp/options-checked")
+            if full and 4 * shape[1] * shape[2] <= 400 and "w_up2" in extras and ci % 2 == 0:
+                exprs.append(wmap_up_expr(shape, 2, H, W, K, obs["images"][i_m]["fast"]))
+                todo.append(("wmap_up", case, obs, i_m, extras["w_up2"], oracle_failed_K))
+            if full and "w_batched" in extras and ci % 2 == 1:
+                exprs.append(wmap_batched_expr(extras["batch"], shape, H, W, K, obs["images"][i_m]["fast"]))
+                todo.append(("wmap_batched", case, obs, i_m, extras["w_batched"], oracle_failed_K))
+        # ---- CURVED knots through transform_coordinates: the interpolation model on non-straight data
+        it = dc.interpolator[i_m]
+        kc = curved_knots(case, dc.knots[i_m], case["img_seed"] ^ 0xC0FFEE)
+        cxa, cya = it.transform_coordinates(kc)
+        cxa = np.broadcast_to(np.asarray(cxa, dtype=float), (H, W))
+        cya = np.broadcast_to(np.asarray(cya, dtype=float), (H, W))
+        rows_sel = sorted(set(ctx.rng.sample(range(H), min(H, 3))))
+        cpx = [(ri, c_) for ri in range(len(rows_sel)) for c_ in sorted(set(ctx.rng.sample(range(W), min(W, 4))))]
+        exprs.append(curved_expr(W, K, obs["images"][i_m]["fast"], kc, rows_sel, cpx))
+        todo.append(("curved", case, obs, i_m, (rows_sel, cpx, np.array(cxa), np.array(cya)), False))
+        ctx.dist("curved-knots/K=%d" % K)
+        # ---- align_translation on this (generally non-identical) stack: knot update arithmetic, pass by pass
+        mis = case["min_image_shift"]
+        for pno in range(int(case.get("passes", 1))):
+            coords_before = [tuple(np.array(np.broadcast_to(np.asarray(v, dtype=float), (H, W)))
+                                   for v in dc.interpolator[i].transform_coordinates(dc.knots[i])) for i in range(n)]
+            before, after, shifts = run_align(dc, case["up"], mis, case.get("max_image_shift", 32))
+            disp = [a - b for a, b in zip(after, before)]
+            if not all(np.all(np.isfinite(d)) for d in disp):
+                break
             if shifts is None:   # wrapper saw nothing: recover the measured shifts from the knots
                 shifts = [[float(disp[i][0].flat[0] - disp[0][0].flat[0]),
                            float(disp[i][1].flat[0] - disp[0][1].flat[0])] for i in range(1, n)]
             dxy = np.array([[0.0, 0.0]] + shifts)
             dn = dxy - dxy.mean(axis=0)
-            mis = case["min_image_shift"]
             near_threshold = mis is not None and abs(float(np.linalg.norm(dn[n - 1])) - mis) < 1e-6
             if not near_threshold:
                 exprs.append(applied_expr(n, mis, [[0.0, 0.0]] + shifts))
                 todo.append(("align", case, obs, 0, disp, False))
                 ctx.dist("align/up=%d,min_shift=%s" % (case["up"], "none" if mis is None else "given"))
-    vals = ctx.coq_eval("geom", PRE, exprs, shard=ctx.budget(6, 12))
+                ctx.dist("align/max_image_shift=%s,pass=%d" % (case.get("max_image_shift", 32), pno + 1))
+            # the coordinates follow the knots rigidly (C15_translation_equivariant), the weight map still sums
+            tolc = coord_tol(shape, H, W)
+            for i in range(n):
+                xa2, ya2 = dc.interpolator[i].transform_coordinates(dc.knots[i])
+                ex_ = float(np.abs(np.asarray(xa2) - coords_before[i][0] - disp[i][0].flat[0]).max())
+                ey_ = float(np.abs(np.asarray(ya2) - coords_before[i][1] - disp[i][1].flat[0]).max())
+                spread = max(float(np.ptp(disp[i][0])), float(np.ptp(disp[i][1])))
+                if not max(ex_, ey_, spread) <= tolc * max(1.0, float(np.abs(disp[i]).max())):
+                    ctx.violation("align-coords-correspondence",
+                                  "after align_translation (pass %d) the pixel coordinates of image %d are not the "
+                                  "coordinates before plus the displacement of its knots (off by %.3g px, knot "
+                                  "displacements spread %.3g) on case %s" % (pno + 1, i, max(ex_, ey_), spread, _short(case)),
+                                  {"kind": "geom", "case": case, "image": i}, found_input=False)
+                ws = float(np.array(dc.weights_warped.array[i]).sum(dtype=float))
+                if not case.get("outside") and not abs(ws - H * W) <= WSUM_RTOL * H * W:
+                    n_or += 1
+                    ctx.violation("weight-sum-after-align",
+                                  "after align_translation (pass %d) the weight map of image %d (%dx%d, %r deg, %d knots) "
+                                  "sums to %.9g, not to the %d image pixels" % (pno + 1, i, H, W, case["angles"][i], K, ws, H * W),
+                                  {"kind": "geom", "case": case, "image": i})
+            # the running reference of the measuring loop, step by step
+            rwhat, rdata = reference_findings(n)
+            if rwhat:
+                ctx.violation("reference-correspondence", rwhat + " on case %s" % _short(case),
+                              {"kind": "geom", "case": case}, found_input=False)
+            elif rdata and pno == 0:
+                exprs.append("refmean %s [%s]" % (cq(fr(rdata[0][0])), "; ".join(cq(fr(x)) for x in rdata[0][1:])))
+                todo.append(("refmean", case, obs, 0, rdata[1], False))
+                ctx.dist("align/reference-steps=%d" % (n - 2))
+            # a prefix of identical images stays aligned with itself (C15_partial_identical_rigid)
+            m = int(case.get("prefix") or 0)
+            if m and not case.get("outside"):
+                ctx.dist("align/identical-prefix=%d-of-%d" % (m, n))
+                pf = prefix_findings(case, m, shifts, disp, mis, pno)
+                if pf:
+                    n_or += 1
+                    ctx.violation(pf[0], pf[1], {"kind": "geom", "case": case})
+    ctx.log("geometry: implementation side done, %d model expressions" % len(exprs))
+    vals = ctx.coq_eval("geom", PRE, exprs, shard=ctx.budget(10, 16))
+    ctx.log("geometry: model evaluated")
     nd = 0
     for (kind, case, obs, i_m, aux, ofail), v in zip(todo, vals):
         H, W, K, n = case["H"], case["W"], case["K"], case["n"]
@@ -489,6 +894,30 @@ def check_geometry(ctx: Ctx):
                 if not dfw <= 4 * W_ATOL:
                     msg = ("weights-filtered-correspondence",
                            "weights_warped differs from gaussian_filter(model weight map) by %.3g" % dfw)
+        elif kind in ("wmap_up", "wmap_batched"):
+            shp2 = up_shape(shape[1:], 2) if kind == "wmap_up" else shape[1:]
+            mw = np.array([unscale(z) for z in v]).reshape(shp2[0], shp2[1])
+            dw = float(np.abs(mw - aux).max())
+            if not dw <= W_ATOL:
+                msg = ("weights-upsampled-correspondence" if kind == "wmap_up" else "weights-batched-correspondence",
+                       "weight map (%s) differs from the model by %.3g"
+                       % ("warp_image(upsample_factor=2, kde_sigma=0)" if kind == "wmap_up"
+                          else "bilinear_kde(max_batch_size=..., kde_sigma=0)", dw))
+        elif kind == "curved":
+            rows_sel, cpx, cxa, cya = aux
+            dcmax = 0.0
+            for (ri, c_), (a, b) in zip(cpx, v):
+                dcmax = max(dcmax, abs(unscale(a) - cxa[rows_sel[ri], c_]), abs(unscale(b) - cya[rows_sel[ri], c_]))
+            if not dcmax <= 4 * tol:
+                msg = ("curved-knots-correspondence",
+                       "transform_coordinates on a curved (perturbed) knot array differs from the model (1 knot: "
+                       "extrapolation along the fast axis, 2: linear, 3/4: interpolating polynomial) by %.3g px" % dcmax)
+        elif kind == "refmean":
+            d = abs(unscale(v) - aux)
+            if not d <= REF_RTOL * max(1.0, abs(aux)):
+                msg = ("reference-model-correspondence",
+                       "DC coefficient of the last reference of the measuring loop is %.12g, the model's running mean "
+                       "gives %.12g" % (aux, unscale(v)))
         elif kind == "cdim":
             if [int(v[0]), int(v[1])] != shape[1:]:
                 msg = ("canvas-shape-correspondence",
@@ -532,6 +961,11 @@ def check_fixed(ctx: Ctx):
             ctx.dist("fixed/up=%d" % up)
             ctx.dist("fixed/kde_sigma=%r" % sigma)
             ctx.dist("fixed/n_images=%d" % case["n"])
+            ctx.dist("fixed/passes=%d" % case.get("passes", 1))
+            ctx.dist("fixed/max_image_shift=%s" % case.get("max_image_shift", 32))
+            ctx.dist("fixed/min_image_shift=%s" % case.get("min_image_shift"))
+            ctx.dist("fixed/input_form=%s" % case.get("form", "list-nd"))
+            ctx.dist("fixed/stack=%s" % ("identical" if not case.get("prefix") else "identical-prefix"))
             ctx.count(("fixed", case["H"], case["W"], case["K"], case["n"], case["angles"][0], case["pad"], up, sigma),
                       nontrivial=True)
             if res:
@@ -554,22 +988,39 @@ def run(ctx: Ctx):
     ctx.hash_sources("core/utils/compound_validators.py", ["validate_list_of_dataset2d", "validate_pad_value"])
     ctx.cov["rule"] = (
         "geometry cases: stacks of 2..4 random images of one shape (square odd/even, tall, wide, single row/column, "
-        "a few strongly non-square up to 9x20), per-image scan directions in [0,360) incl. multiples of 90/45, pad "
-        "fractions on a dyadic grid and arbitrary floats, each run with 1,2,3,4 knots (oracle) and compared with the "
-        "model at the case's knot count (knots of every row, coordinates of <=30 pixels incl. the corners, the whole "
-        "weight map when the image has <=30 pixels, the canvas shape for dyadic pads, the knot update of "
-        "align_translation with the shifts the estimator returned); fixed-point cases: stacks of 2..4 identical "
-        "images, same direction, upsample factors 1,2,3,4,8,16 and KDE widths 0.25..2; a case is distinct by "
-        "(shape, knots, stack size, angles, pad[, upsample, sigma]) and non-trivial unless it is a 1x1 image or a "
-        "square image at 0 degrees")
+        "extents 1 and 2, a few strongly non-square up to 9x20), handed over in every form validate_list_of_dataset2d "
+        "accepts (list of arrays, 3-D array, list of Dataset2d, Dataset3d), per-image scan directions in [0,360) incl. "
+        "multiples of 90/45 and angles 1e-9..3e-2 deg off an axis, given as list / float64 array / integers (and a few "
+        "angles outside [0,360): model correspondence only, not judged), pad fractions on a dyadic grid, arbitrary floats "
+        "and 1.5..5, every pad_value mode (median/mean/min/max/quantile 0, 0.3, 1/list), each run with 1,2,3,4 knots "
+        "(oracle: coordinate formula, knot-count agreement, weight sums, the trigonometric contract on every copy of the "
+        "scan vectors) and compared with the model at the case's knot count (knots of every row, coordinates of <=30 "
+        "pixels incl. the corners, the whole weight map when the image has <=30 pixels — also upsampled x2 and accumulated "
+        "in batches —, the canvas shape for dyadic pads, coordinates of a CURVED (perturbed) knot array, the knot update "
+        "of 1-2 align_translation passes with the shifts the estimator returned, max_image_shift 32/6/1.5/None and "
+        "min_image_shift, the running reference of the measuring loop at every step, coordinates following the knots, "
+        "weight sums after every pass); every option of warp_image (kde_sigma incl. 0, upsample_factor 0.5..4, "
+        "output_shape) and bilinear_kde (lowpass_filter, max_batch_size 1..>N, return_pix_count); fixed-point cases: "
+        "stacks of 2..4 identical images (or with only an identical prefix), same direction, upsample factors "
+        "1,2,3,4,8,16, KDE widths 0.25..2, 1-3 passes, max/min_image_shift; a case is distinct by (shape, knots, stack "
+        "size, angles, pad[, upsample, sigma]) and non-trivial unless it is a 1x1 image or a square image at 0 degrees")
     ctx.assumptions += [
         "scipy.interpolate.interp1d(kind='quadratic'|'cubic') given exactly k+1 points evaluates the interpolating "
-        "polynomial (modelled as Lagrange interpolation; exercised on every case with 3 or 4 knots)",
-        "scipy.ndimage.gaussian_filter(mode='reflect') preserves the sum of its input (checked numerically on every case)",
-        "(s, c) = (sin(-t), cos(-t)) are taken from numpy as exact binary64 values; the harness checks them against "
-        "math.sin/cos to 1e-12",
+        "polynomial (modelled as Lagrange interpolation; compared on every case on the straight initial knots AND on a "
+        "curved, perturbed knot array)",
+        "scipy.ndimage.gaussian_filter(mode='reflect') preserves the sum of its input for every sigma incl. 0 (checked "
+        "numerically on every case, every kde_sigma / upsample_factor / output_shape option); the sinc lowpass of "
+        "bilinear_kde divides the DC Fourier coefficient by sinc(0) = 1 (checked numerically to 1e-5)",
+        "TRIGONOMETRIC ORACLE CONTRACT: the theorems hold for every pair (s, c); the code is tied to them by "
+        "scan_fast = (s, c) with |s - sin(-theta)|, |c - cos(-theta)| <= 1e-12 against the C library (math.sin/cos of "
+        "math.radians(theta), independent of numpy's kernels), |s^2 + c^2 - 1| <= 1e-15 (hypothesis of "
+        "C15_placement_isometry), scan_slow = (c, -s) bit-exactly, and the DriftInterpolator copies bit-equal — checked "
+        "for every image of every case and knot count; (s, c) are handed to the model as exact binary64 fractions",
         "zero shift for identical images is the estimator's clause (property C13); here it is an input of the "
-        "fixed-point theorem and an oracle check on the implementation",
+        "fixed-point theorems and an oracle check on the implementation",
+        "the measuring loop of align_translation is observed by wrapping the name cross_correlation_shift in "
+        "quantem.imaging.drift (reference handed in, shifted image returned); when the loop is not observable in that "
+        "form the reference comparison is skipped",
     ]
     ctx.cov["trusted_base"] += [
         "Coq 8.16.1 kernel incl. vm_compute (used to run the model); no native_compute",
@@ -592,8 +1043,30 @@ def replay(ctx: Ctx, path):
         for k in (1, 2, 3, 4):
             bad += oracle_geometry(case, obs_by_K[k], k)
         bad += oracle_knots_agree(case, obs_by_K)
+        if case.get("outside"):
+            bad = []
+        for k in (1, 2, 3, 4):
+            bad += [(key, what) for key, what, is_oracle in scan_vector_findings(case, obs_by_K[k]) if is_oracle]
         obs = obs_by_K[case["K"]]
         i_m = int(rp.get("image", 0))
+        if not case.get("outside"):
+            dc_, imgs_ = build(case)
+            bad += warp_option_findings(case, dc_, imgs_, min(i_m, case["n"] - 1))[0]
+            mis = case.get("min_image_shift")
+            for pno in range(int(case.get("passes", 1))):
+                before, after, shifts = run_align(dc_, case.get("up", 1), mis, case.get("max_image_shift", 32))
+                disp = [a - b for a, b in zip(after, before)]
+                if not all(np.all(np.isfinite(d)) for d in disp):
+                    break
+                for i in range(case["n"]):
+                    ws = float(np.array(dc_.weights_warped.array[i]).sum(dtype=float))
+                    if not abs(ws - case["H"] * case["W"]) <= WSUM_RTOL * case["H"] * case["W"]:
+                        bad.append(("weight-sum-after-align", "image %d: weight map sums to %.9g after pass %d" % (i, ws, pno + 1)))
+                m = int(case.get("prefix") or 0)
+                if m and shifts is not None:
+                    pf = prefix_findings(case, m, shifts, disp, mis, pno)
+                    if pf:
+                        bad.append(pf)
         px = sample_pixels(ctx.rng, case["H"], case["W"], 8)
         v = ctx.coq_eval("replay", PRE, [geom_expr(obs["shape"], case["H"], case["W"], case["K"],
                                                    obs["images"][i_m]["fast"], px)])[0]
